@@ -854,7 +854,7 @@ def main():
                        "effective options) form a class whose (ending, output size, SHA-256, summary columns, debug database) the Lean "
                        "judge Determinism.agree must find identical. Props/C14 proves when the abstract process-state model is history "
                        "independent and exhibits the witnesses where the unchanged code is not.",
-        "evaluations": nsteps + len(cli_results) + nsort + ngreedy + nhill,
+        "evaluations": nsteps + len(cli_results) + nsort + ngreedy + nhill + n_whash,
         "greedy_tie_trials": ngreedy,
         "hillclimb_repeat_allocations": nhill,
         "compilations_observed": nsteps + len(cli_results),
